@@ -25,6 +25,9 @@ use crate::{camera::DeviceControl, genapi::CompressionType, ControlError, Contro
 /// This value is temporarily used until the device's bootstrap register value is read.
 const INITIAL_TIMEOUT_DURATION: Duration = Duration::from_millis(500);
 
+/// Shortest timeout duration handed to a transfer, see [`ControlHandle::transfer_timeout`].
+const MINIMUM_TIMEOUT_DURATION: Duration = Duration::from_millis(1);
+
 /// Initial maximum command  packet length for transaction between device and host.
 /// This value is temporarily used until the device's bootstrap register value is read.
 const INITIAL_MAXIMUM_CMD_LENGTH: u32 = 128;
@@ -215,6 +218,16 @@ impl ControlHandle {
         Self::new(device)
     }
 
+    /// Timeout handed to every transfer of the control channel.
+    ///
+    /// A zero timeout means "wait forever" for libusb, and durations are passed to it in whole
+    /// milliseconds. So a device that reports a maximum response time of zero (or a sub
+    /// millisecond duration set by the user) must not turn a lost acknowledge into a call that
+    /// never returns.
+    fn transfer_timeout(&self) -> Duration {
+        std::cmp::max(self.config.timeout_duration, MINIMUM_TIMEOUT_DURATION)
+    }
+
     fn assert_open(&self) -> ControlResult<()> {
         if self.is_opened() {
             Ok(())
@@ -225,7 +238,7 @@ impl ControlHandle {
 
     fn initialize_channel(&mut self) -> ControlResult<()> {
         // Clean up control channel state.
-        self.inner.set_halt(self.config.timeout_duration)?;
+        self.inner.set_halt(self.transfer_timeout())?;
         self.inner.clear_halt()?;
 
         // Use the initial lengths until the device's bootstrap register values are read (again),
@@ -283,15 +296,16 @@ impl ControlHandle {
         // Serialize and send command.
         cmd.serialize(self.buffer.as_mut_slice())?;
         self.inner
-            .send(&self.buffer[..cmd_len], self.config.timeout_duration)?;
+            .send(&self.buffer[..cmd_len], self.transfer_timeout())?;
 
         // Receive ack and interpret the packet.
+        let timeout = self.transfer_timeout();
         let mut retry_count = self.config.retry_count;
         let mut ok = None;
         while retry_count > 0 {
             let recv_len = self
                 .inner
-                .recv(&mut self.buffer, self.config.timeout_duration)?;
+                .recv(&mut self.buffer, timeout)?;
 
             let ack = ack::AckPacket::parse(&self.buffer[0..recv_len])?;
 
